@@ -456,13 +456,15 @@ def evaluate_stream(ctx, st):
         seen_keys.add(("pf", st.suite))
 
         def still(cand, suite=st.suite, chk=st.checker, st=st):
-            o = run_impl(["%s %s" % (suite, cand)])[0]
+            o = run_impl(["%s %s" % (suite, cand)], timeout=min(getattr(st, "timeout", 240), 60))[0]
             if o == BAD:
                 return False
             v = run_checker(chk, [cand], [o])[0]
             return v == "0" and not ctx.known_key_of(suite, cand, o, st)
-        small = shrink(c, still)
-        o = run_impl(["%s %s" % (st.suite, small)])[0]
+        # a case on which the implementation does not answer (worker killed after the stream's time limit) is reported as it is:
+        # every shrinking step would wait for the limit again
+        small = c if i.startswith("(9") else shrink(c, still)
+        o = i if small == c else run_impl(["%s %s" % (st.suite, small)], timeout=min(getattr(st, "timeout", 240), 60))[0]
         mo = resolve_needs(["%s %s" % (st.suite, small)])[0][0]
         ctx.violation("property predicate fails on the implementation's output", {
             "property": ctx.prop, "kind": "predicate-fails", "stream": st.name, "suite": st.suite, "checker": st.checker,
